@@ -32,6 +32,7 @@ from octave_mcp.core.ast_nodes import (
     Section,
 )
 from octave_mcp.core.emitter import emit
+from octave_mcp.core.file_ops import missing_parent_dirs, remove_created_dirs
 from octave_mcp.core.gbnf_compiler import GBNFCompiler
 from octave_mcp.core.hydrator import resolve_hermetic_standard
 from octave_mcp.core.lexer import LexerError, tokenize
@@ -1638,8 +1639,10 @@ class WriteTool(BaseTool):
             return result
 
         # WRITE FILE (atomic + symlink-safe)
+        created_dirs: list[Path] = []
         try:
             # Ensure parent directory exists
+            created_dirs = missing_parent_dirs(path_obj)
             path_obj.parent.mkdir(parents=True, exist_ok=True)
 
             # Reject symlink targets (security)
@@ -1699,6 +1702,8 @@ class WriteTool(BaseTool):
                 raise
 
         except PermissionError:
+            # A failed write leaves no directories behind either
+            remove_created_dirs(created_dirs)
             return self._error_envelope(
                 target_path,
                 [
@@ -1710,6 +1715,7 @@ class WriteTool(BaseTool):
                 result["corrections"],
             )
         except Exception as e:
+            remove_created_dirs(created_dirs)
             return self._error_envelope(
                 target_path,
                 [
